@@ -184,6 +184,34 @@ func (g *G) pop() E {
 
 func (g *G) declare(v *Var) { s := g.scopes[len(g.scopes)-1]; s.vars = append(s.vars, v) }
 
+// scopedName names a variable that is declared in a scope of its own (for / if / switch init statement, range
+// key and value, the counter block of a condition-only loop): a fresh name, or the name of a visible variable
+// (local, parameter or global of any type), which it then shadows until that scope ends.
+func (g *G) scopedName(pfx string, avoid ...string) string {
+	if g.r.Chance(2, 5) {
+		vs := g.visible(func(v *Var) bool {
+			if v.Name == "d" || v.Name == "s" || strings.HasPrefix(v.Name, "acc") {
+				return false
+			}
+			for _, a := range avoid {
+				if a == v.Name {
+					return false
+				}
+			}
+			return true
+		})
+		if len(vs) > 0 {
+			v := vs[g.r.Intn(len(vs))]
+			g.f("shadow:" + pfx)
+			if v.Global {
+				g.f("shadow:global")
+			}
+			return v.Name
+		}
+	}
+	return g.fresh(pfx)
+}
+
 func (g *G) fresh(pfx string) string { g.nvar++; return fmt.Sprintf("%s%d", pfx, g.nvar) }
 
 // visible variables of a kind (innermost first; shadowed names are skipped).
@@ -1122,8 +1150,8 @@ func (g *G) genDefine(t Ty) E {
 	fresh := t.K == KInts || t.K == KBytes || t.K == KMapII || t.K == KMapSI || (t.K == KPtr && strings.HasPrefix(e.p, "&"))
 	// shadow an existing name sometimes (exercises the scope handling of the compiler)
 	name := g.fresh("v")
-	if g.depth > 1 && g.r.Chance(1, 3) {
-		if old := g.pickVar(t.K, false); old != nil && !old.Global && !old.ReadOnly && (t.K != KPtr || old.Ty.S == t.S) {
+	if g.r.Chance(1, 3) {
+		if old := g.pickVar(t.K, false); old != nil && (old.Global || g.depth > 1) && old.Name != "d" && old.Name != "s" && (t.K != KPtr || old.Ty.S == t.S) {
 			inCur := false
 			for _, v := range g.scopes[len(g.scopes)-1].vars {
 				if v.Name == old.Name {
@@ -1153,7 +1181,7 @@ func (g *G) genIf() E {
 	g.f("stmt:if")
 	g.push() // scope of the init statement
 	if g.r.Chance(1, 6) {
-		n := g.fresh("t")
+		n := g.scopedName("t")
 		e := g.genInt(2)
 		g.f("stmt:if-init")
 		s.pc(fmt.Sprintf("if %s := %s; ", n, e.p), fmt.Sprintf("if %s := %s; ", n, e.c))
@@ -1194,25 +1222,25 @@ func (g *G) genFor() E {
 	n := g.r.Range(0, 4)
 	switch g.r.Intn(4) {
 	case 0: // cond-only loop with a fuel counter
-		k := g.fresh("k")
+		k := g.scopedName("k")
 		g.f("stmt:for-cond")
 		head.both("%s := 0\n", k)
 		g.declare(&Var{Name: k, Ty: tInt, ReadOnly: true, Used: true})
 		c := g.genBool(1)
 		head.pc(fmt.Sprintf("§L§for %s < %d && %s {\n%s++\n", k, n, c.p, k), fmt.Sprintf("§L§for %s < %d && %s {\n%s++\n", k, n, c.c, k))
 	case 1: // counting down
-		i := g.fresh("i")
+		i := g.scopedName("i")
 		g.f("stmt:for-down")
 		head.both("§L§for %s := %d; %s > 0; %s-- {\n", i, n, i, i)
 		g.declare(&Var{Name: i, Ty: tInt, ReadOnly: true, Used: true})
 	case 2: // infinite loop with a break guarded by a counter
-		k := g.fresh("k")
+		k := g.scopedName("k")
 		g.f("stmt:for-ever")
 		head.both("%s := 0\n", k)
 		g.declare(&Var{Name: k, Ty: tInt, ReadOnly: true, Used: true})
 		head.both("§L§for {\n%s++\nif %s > %d {\nbreak\n}\n", k, k, n)
 	default:
-		i := g.fresh("i")
+		i := g.scopedName("i")
 		g.f("stmt:for-3")
 		step := 1
 		if g.r.Chance(1, 4) {
@@ -1256,7 +1284,7 @@ func (g *G) genRange() E {
 	var head string
 	switch g.r.Intn(6) {
 	case 0: // range over an int constant
-		i := g.fresh("i")
+		i := g.scopedName("i")
 		g.f("stmt:range-int")
 		head = fmt.Sprintf("for %s := range %d {\n", i, g.r.Intn(5))
 		g.declare(&Var{Name: i, Ty: tInt, ReadOnly: true, Used: true})
@@ -1272,13 +1300,14 @@ func (g *G) genRange() E {
 		mapRange = true
 		v.Used = true
 		if v.Ty.K == KMapII && g.r.Bool() {
-			k, x := g.fresh("k"), g.fresh("x")
+			k := g.scopedName("k")
+			x := g.scopedName("x", k)
 			g.f("stmt:range-map-kv")
 			head = fmt.Sprintf("for %s, %s := range %s {\n", k, x, v.Name)
 			g.declare(&Var{Name: k, Ty: tInt, ReadOnly: true, Used: true})
 			g.declare(&Var{Name: x, Ty: tInt, ReadOnly: true, Used: true})
 		} else {
-			x := g.fresh("x")
+			x := g.scopedName("x")
 			g.f("stmt:range-map-v")
 			head = fmt.Sprintf("for _, %s := range %s {\n", x, v.Name)
 			g.declare(&Var{Name: x, Ty: tInt, ReadOnly: true, Used: true})
@@ -1290,7 +1319,7 @@ func (g *G) genRange() E {
 			return g.genStmtSimple()
 		}
 		v.Used = true
-		i := g.fresh("i")
+		i := g.scopedName("i")
 		g.f("stmt:range-str")
 		head = fmt.Sprintf("for %s := range %s {\n", i, v.Name)
 		g.declare(&Var{Name: i, Ty: tInt, ReadOnly: true, Used: true})
@@ -1303,18 +1332,19 @@ func (g *G) genRange() E {
 		v.Used = true
 		switch g.r.Intn(3) {
 		case 0:
-			i, x := g.fresh("i"), g.fresh("x")
+			i := g.scopedName("i")
+			x := g.scopedName("x", i)
 			g.f("stmt:range-slice-kv")
 			head = fmt.Sprintf("for %s, %s := range %s {\n", i, x, v.Name)
 			g.declare(&Var{Name: i, Ty: tInt, ReadOnly: true, Used: true})
 			g.declare(&Var{Name: x, Ty: tInt, ReadOnly: true, Used: true})
 		case 1:
-			x := g.fresh("x")
+			x := g.scopedName("x")
 			g.f("stmt:range-slice-v")
 			head = fmt.Sprintf("for _, %s := range %s {\n", x, v.Name)
 			g.declare(&Var{Name: x, Ty: tInt, ReadOnly: true, Used: true})
 		default:
-			i := g.fresh("i")
+			i := g.scopedName("i")
 			g.f("stmt:range-slice-k")
 			head = fmt.Sprintf("for %s := range %s {\n", i, v.Name)
 			g.declare(&Var{Name: i, Ty: tInt, ReadOnly: true, Used: true})
@@ -1362,7 +1392,7 @@ func (g *G) genSwitch() E {
 			}
 		}
 		if g.r.Chance(1, 6) {
-			n := g.fresh("t")
+			n := g.scopedName("t")
 			g.f("stmt:switch-init")
 			head = E{fmt.Sprintf("switch %s := %s; %s {\n", n, t.p, n), fmt.Sprintf("switch %s := %s; %s {\n", n, t.c, n), 0, false}
 			g.declare(&Var{Name: n, Ty: tInt, ReadOnly: true, Used: true})
